@@ -132,7 +132,8 @@ def real(family, ideal):
     if key not in _th:
         cc = tmo.Chemicals(FAMILIES[family] + [tmo.Chemical('N2', phase='g'), tmo.Chemical('Glucose', phase='s')])
         if ideal:
-            _th[key] = tmo.Thermo(cc, cache=False, Gamma=eq.IdealActivityCoefficients, Phi=eq.IdealFugacityCoefficients, PCF=eq.MockPoyintingCorrectionFactors)
+            # the ideal twin of the activity-coefficient package: the SAME chemical objects (solver objects cached per chemicals must not mix the two up)
+            _th[key] = real(family, False).ideal()
         else:
             _th[key] = tmo.Thermo(cc, cache=False)
     return _th[key]
@@ -144,7 +145,7 @@ def _tables(ms):
 
 def measured(family, ideal, comp, kind, u1, u2, k):
     """every clause of C04 measured on one flash of a real package.  comp: ID -> kmol/hr;  kind: specification pair"""
-    obs = dict(exc=NONE, msg='', tp_equal=True, hs_dev=0, v_bracketed=True, boundary_ok=True, fug_dev=0, scale_dev=0, V6=0, rr_dev=0)
+    obs = dict(exc=NONE, msg='', tp_equal=True, hs_dev=0, v_bracketed=True, boundary_ok=True, fug_dev=0, scale_dev=0, V6=0, rr_dev=0, span6=0, hist_dev=0)
     try:
         with warnings.catch_warnings():
             warnings.simplefilter('ignore')
@@ -185,6 +186,10 @@ def measured(family, ideal, comp, kind, u1, u2, k):
                     w = kind[1]
                     spec = dict(T=T)
                     spec[w] = getattr(lo, w) + (0.05 + 0.9 * u2) * (getattr(hi, w) - getattr(lo, w))
+                    # width of the two-phase envelope at this temperature relative to the pressure (the T-H / T-S solvers resolve P to 1 Pa)
+                    obs['span6'] = cap(abs(lo.P - hi.P) / max(lo.P, hi.P) * 1e6)
+                    # what the solver's stated pressure resolution (P_tol = 1 Pa; 3 Pa allowed) is worth in H / S across the envelope
+                    th_res = abs(getattr(hi, w) - getattr(lo, w)) * min(1., 3. / max(abs(lo.P - hi.P), 1e-12))
                 elif kind in ('Tx', 'Ty', 'Px', 'Py'):
                     # composition specifications (two volatile chemicals): liquid / vapour composition with temperature or pressure
                     # (next to the overall composition: the lever rule needs it between the liquid and the vapour composition)
@@ -210,7 +215,10 @@ def measured(family, ideal, comp, kind, u1, u2, k):
                 if 'H' in spec or 'S' in spec:
                     w = 'H' if 'H' in spec else 'S'
                     scale = max(abs(spec[w]), abs(ms.C) * (1. if w == 'H' else 1. / ms.T))
-                    obs['hs_dev'] = cap(abs(getattr(ms, w) - spec[w]) / scale * 1e9)
+                    dev = abs(getattr(ms, w) - spec[w])
+                    if kind in ('TH', 'TS'):
+                        dev = max(0., dev - th_res)        # temperature given: the pressure is resolved to P_tol, no final correction of the split
+                    obs['hs_dev'] = cap(dev / scale * 1e9)
                 if 'V' in spec and plain:
                     # the specification is met at the equilibrium point: one solver resolution to either side brackets it
                     a_, b_ = fresh(), fresh()
@@ -261,6 +269,52 @@ def measured(family, ideal, comp, kind, u1, u2, k):
                                     obs['rr_dev'] = cap(abs(gi.sum() / (gi.sum() + li.sum()) - 0.5 * (lo_ + hi_)) * 1e9)
                 if kind[1] in 'xy':
                     return obs          # (the composition specifications fix the split by the lever rule: no scaling clause)
+                # the SAME stream object (and its solver object) refilled with other material - other chemicals of the family in the same
+                # number, other proportions, other total - and flashed again with the same kind of specification at the same T / P:
+                # the answer is that of a new stream holding that material, whatever the solver remembers
+                fam_ids = FAMILIES[family]
+                shift = 1 + int(u1 * 1000) % max(len(fam_ids) - 1, 1)
+                comp2 = {}
+                for n_, (ID, v) in enumerate(sorted(comp.items())):
+                    ID2 = fam_ids[(fam_ids.index(ID) + shift) % len(fam_ids)] if ID in fam_ids and int(u2 * 1000) % 2 else ID
+                    comp2[ID2] = comp2.get(ID2, 0.) + v * (0.3 + 1.7 * ((n_ * 7 + int(u2 * 100)) % 10) / 10.) * 3.7
+                def refill(st):
+                    for ph in st.phases:
+                        st.imol[ph] = 0.
+                    for ID, v in comp2.items():
+                        st.imol['l', ID] = v
+                    st.T, st.P = 320., 101325.
+                new = tmo.MultiStream(None, thermo=th, phases='gl', T=320., P=101325.)
+                refill(new)
+                refill(ms)
+                spec2 = dict(spec)
+                for w in ('H', 'S'):
+                    if w in spec2:
+                        lo2, hi2 = tmo.MultiStream(None, thermo=th, phases='gl', T=320., P=101325.), tmo.MultiStream(None, thermo=th, phases='gl', T=320., P=101325.)
+                        refill(lo2); refill(hi2)
+                        fixed = {kk: vv for kk, vv in spec.items() if kk in 'TP'}
+                        lo2.vle(V=0., **fixed); hi2.vle(V=1., **fixed)
+                        spec2[w] = getattr(lo2, w) + 0.5 * (getattr(hi2, w) - getattr(lo2, w))
+                try:
+                    new.vle(**spec2)
+                    ok_new = True
+                except Exception:
+                    ok_new = False
+                if ok_new and 2e4 <= new.P <= 1e6 and 280. <= new.T <= 450.:        # (judged inside the ranges C04 names)
+                    ms.vle(**spec2)
+                    g1, l1 = _tables(ms)
+                    g2, l2 = _tables(new)
+                    tot2 = max((g2 + l2).max(), 1e-30)
+                    obs['msg'] = 'again: P %r / new %r, T %r / new %r, V %r / new %r' % (ms.P, new.P, ms.T, new.T, ms.vapor_fraction, new.vapor_fraction)
+                    if 'V' in spec or kind in ('TH', 'TS'):
+                        # a temperature (pressure) is solved for to P_tol = 1 Pa (T_tol): both runs must land within 3 Pa / 1e-6 T of each
+                        # other; the split at that resolution is not compared (it is steep where a non-condensable gas is present); with
+                        # activity coefficients outside one homologous family the vapour-fraction solvers are not judged (as for the V clause)
+                        dP = max(abs(ms.P - new.P) - 3., 0.) / new.P
+                        dT = max(abs(ms.T - new.T) - 1e-6 * new.T, 0.) / new.T
+                        obs['hist_dev'] = cap(max(dP, dT) * 1e9) if (plain or kind in ('TH', 'TS')) else 0
+                    else:
+                        obs['hist_dev'] = cap(max(np.abs(g1 - g2).max() / tot2, np.abs(l1 - l2).max() / tot2, abs(ms.T - new.T) / new.T, abs(ms.P - new.P) / new.P) * 1e9)
                 # scaling of the feed
                 ks = fresh(k)
                 ks.vle(**{kk: (vv * k if kk in 'HS' else vv) for kk, vv in spec.items()})
